@@ -268,7 +268,7 @@ def run(tier):
                 v.violation("replay:%s:%s" % (got["what"], fams), got["detail"], {"rec": rec, "via": job["via"], "got": got})
     # ---- A-DelayDist: moments of the samplers at parameter values outside the rational scheme
     mcases = []
-    for j, (fam, a, b_) in enumerate([("gamma", k, th) for k in (1.0, 1.5, 2.0, 3.0, 0.5, 7.25) for th in (0.25, 1.0, 4.0)] +
+    for j, (fam, a, b_) in enumerate([("gamma", k, th) for k in (1.0, 1.5, 2.0, 3.0, 0.5, 7.25, 0.2, 0.3) for th in (0.25, 1.0, 4.0)] +
                                      [("gaussian", mu, sd) for mu in (0.0, 2.5, 40.0) for sd in (0.125, 1.0, 3.0)]):
         mcases.append({"fam": fam, "a": a, "b": b_, "n": 20000 if tier == "quick" else 200000, "seed": seed * 7919 + 31 * j + 5})
     mom_ok = 0
